@@ -34,6 +34,7 @@ let rec parse_node (toks : string list) : node * string list =
   | t :: rest ->
     let body = String.sub t 1 (String.length t - 1) in
     (match t.[0] with
+     | 'T' -> parse_node rest     (* a node of a typed engine: the value follows; read as a plain node *)
      | 'n' -> (NNull, rest)
      | 't' -> (NBool true, rest)
      | 'f' -> (NBool false, rest)
@@ -193,10 +194,10 @@ let () =
              | _ -> ());
             if live then go (i + 1) rest
           end in
-      if not (starts_with engine "tbind:" || starts_with engine "tgen:") then go 0 parsed;
+      if not (starts_with engine "tbind" || starts_with engine "tgen") then go 0 parsed;
       let model_obs = Buffer.contents b in
       (* ---- oracle *)
-      let typed_family = starts_with engine "tbind:" || starts_with engine "tgen:" in
+      let typed_family = starts_with engine "tbind" || starts_with engine "tgen" in
       let form_name (o : aop) : string = match o with
         | BeginMap _ -> "beginmap" | BeginList _ -> "beginlist" | AssignNull -> "null" | AssignBool _ -> "bool"
         | AssignInt _ -> "int" | AssignFloat _ -> "float" | AssignString _ -> "string" | AssignBytes _ -> "bytes"
